@@ -224,6 +224,17 @@ fn two(indirect: bool) {
     // the freed descriptors are reusable
     let t3 = unsafe { q.add(&[&a], &mut [&mut b]) }.unwrap();
     assert!((t3 as usize) < HN);
+    // C01/C02: ... and what the device reaches from the new head (over a free list that is no longer in its initial
+    // order) describes exactly these two buffers
+    if !indirect {
+        unsafe {
+            let h = dev_desc(&q, t3 as usize);
+            assert!(h.flags == DescFlags::NEXT && (h.next as usize) < HN, "C01: first descriptor flags/next (recycled descriptors)");
+            let d1 = dev_desc(&q, h.next as usize);
+            assert!(h.addr == paddr_of(&a) && h.len as usize == BUF, "C01: first element is not the caller's input buffer (recycled descriptors)");
+            assert!(d1.addr == paddr_of(&b) && d1.len as usize == BUF && d1.flags == DescFlags::WRITE, "C01: second element is not the caller's output buffer (recycled descriptors)");
+        }
+    }
 }
 #[kani::proof]
 #[kani::unwind(9)]
